@@ -429,7 +429,7 @@ def parse_facebook_url(url, allow_relative_urls=False):
     if "/groups/" in splitted.path:
         parts = pathsplit(splitted.path)
 
-        if len(parts) < 2:
+        if len(parts) < 2 or not parts[1]:
             return None
 
         if "/permalink/" in splitted.path:
